@@ -31,6 +31,7 @@ pub enum Step {
 	Clean,
 	Reopen,
 	EnactOne,
+	Reindex,
 }
 
 #[derive(Clone, Debug)]
@@ -105,6 +106,12 @@ fn gen_key(rng: &mut Rng, uniform: bool, btree: bool, salt_zero: bool) -> Vec<u8
 }
 
 pub fn gen_case(rng: &mut Rng, kind: &str) -> Case {
+	if kind == "c09" {
+		return gen_case_growth(rng, None)
+	}
+	if kind == "c09rc" {
+		return gen_case_growth(rng, Some(true))
+	}
 	let salt_zero = rng.chance(1, 2);
 	let ncols = rng.range(1, 3) as usize;
 	let nkeys = rng.range(3, 9) as usize;
@@ -264,6 +271,7 @@ pub fn gen_case(rng: &mut Rng, kind: &str) -> Case {
 					while enact_one(&mut readq, &mut reading, &mut dirty) {}
 				}
 			},
+			Step::Reindex => app += 1,
 			Step::Clean => dirty = 0,
 			Step::Reopen => {
 				if dirty >= 2 {
@@ -282,6 +290,100 @@ pub fn gen_case(rng: &mut Rng, kind: &str) -> Case {
 		steps.push(Step::Reopen);
 	}
 	Case { cols, keys, steps, salt_zero, class: kind.to_string() }
+}
+
+/// C09 / reindex histories: column 0 is a uniform-key hash column under the zero salt (identity
+/// hash), its keys are aimed at ONE index page (same first two bytes) so that the 65th live key
+/// overflows the page and starts an index growth; some keys share the whole index-visible prefix
+/// (same first 8 bytes) and differ only in the tail. Reindex steps are interleaved with commits,
+/// pipeline steps and restarts.
+pub fn gen_case_growth(rng: &mut Rng, force_rc: Option<bool>) -> Case {
+	let nkeys = rng.range(66, 90) as usize;
+	let rc = force_rc.unwrap_or_else(|| rng.chance(1, 3));
+	let ncols = rng.range(1, 2) as usize;
+	let mut cols = vec![ColCfg { btree: false, rc, preimage: rc || rng.chance(1, 4), uniform: true, compression: 0, threshold: 4096 }];
+	if ncols == 2 {
+		cols.push(ColCfg { btree: rng.chance(1, 2), rc: false, preimage: false, uniform: false, compression: 0, threshold: 4096 });
+	}
+	let page = [rng.below(256) as u8, rng.below(256) as u8];
+	let mut keys: Vec<Vec<Vec<u8>>> = Vec::new();
+	let mut k0: Vec<Vec<u8>> = Vec::new();
+	while k0.len() < nkeys {
+		let mut k = rng.bytes(32);
+		k[0] = page[0];
+		k[1] = page[1];
+		match rng.below(6) {
+			// same page AND same partial key as an earlier key: only the tail differs
+			0 if !k0.is_empty() => {
+				let other = rng.pick(&k0).clone();
+				k[..8].copy_from_slice(&other[..8]);
+			},
+			// separates from an earlier key only one or two generations later
+			1 if !k0.is_empty() => {
+				let other = rng.pick(&k0).clone();
+				k[..2].copy_from_slice(&other[..2]);
+				k[2] = (other[2] & 0xc0) | (k[2] & 0x3f);
+			},
+			_ => (),
+		}
+		if !k0.contains(&k) {
+			k0.push(k);
+		}
+	}
+	k0.sort();
+	keys.push(k0);
+	if ncols == 2 {
+		let mut k1: Vec<Vec<u8>> = Vec::new();
+		while k1.len() < nkeys {
+			let k = gen_key(rng, false, cols[1].btree, true);
+			if !k1.contains(&k) {
+				k1.push(k);
+			}
+		}
+		k1.sort();
+		keys.push(k1);
+	}
+	let fixed: Vec<Vec<u64>> = (0..ncols)
+		.map(|c| (0..nkeys).map(|k| ((((c as u64) << 10 | k as u64) << 4 | rng.below(16)) + 16) << 32 | rng.range(8, 60)).collect())
+		.collect();
+	let mut steps = Vec::new();
+	let nsteps = rng.range(25, 60);
+	// fill phase: bring many keys of column 0 in quickly
+	let mut next_new = 0usize;
+	for _ in 0..nsteps {
+		match rng.below(20) {
+			0..=7 => {
+				let n = rng.range(1, 24) as usize;
+				let mut ops = Vec::new();
+				for _ in 0..n {
+					let c = if ncols == 2 && rng.chance(1, 5) { 1 } else { 0 };
+					let k = if c == 0 && next_new < nkeys && rng.chance(3, 4) {
+						next_new += 1;
+						next_new - 1
+					} else {
+						rng.below(nkeys as u64) as usize
+					};
+					let opc = if cols[c].rc { *rng.pick(&[0u8, 0, 0, 1, 2]) } else { *rng.pick(&[0u8, 0, 0, 0, 1]) };
+					let vtok = if cols[c].preimage { fixed[c][k] } else { (rng.range(1, 1 << 20) << 32) | rng.range(0, 80) };
+					ops.push((c as u8, opc, k, if opc == 0 { vtok } else { 0 }));
+				}
+				steps.push(Step::Commit(ops));
+			},
+			8..=10 => steps.push(Step::Process),
+			11 => steps.push(Step::Flush),
+			12..=13 => steps.push(Step::EnactAll),
+			14 => steps.push(Step::EnactOne),
+			15..=17 => steps.push(Step::Reindex),
+			18 => steps.push(Step::Clean),
+			_ => steps.push(Step::Reopen),
+		}
+	}
+	// drain, so that a growth that was started is also finished and its old index dropped
+	for _ in 0..3 {
+		steps.extend([Step::Process, Step::Process, Step::Flush, Step::EnactAll, Step::Reindex, Step::Flush, Step::EnactAll, Step::Clean]);
+	}
+	steps.push(Step::Reopen);
+	Case { cols, keys, steps, salt_zero: true, class: "c09".to_string() }
 }
 
 pub fn case_tokens(case: &Case) -> Vec<u64> {
@@ -306,6 +408,7 @@ pub fn case_tokens(case: &Case) -> Vec<u64> {
 			Step::Clean => t.push(5),
 			Step::Reopen => t.push(6),
 			Step::EnactOne => t.push(7),
+			Step::Reindex => t.push(8),
 		}
 	}
 	t
@@ -385,6 +488,10 @@ pub struct Run {
 	/// per step, per column: value iteration result (value token+1 -> count) for hash counted columns
 	pub iters: Vec<Vec<Option<Vec<(u64, u64)>>>>,
 	pub panicked: Option<String>,
+	/// largest index size of column 0 seen on disk, and whether two index generations coexisted
+	pub max_bits: u32,
+	pub coexisted: bool,
+	pub reindex_between_commits: bool,
 }
 
 pub fn run_impl(case: &Case, dir: &std::path::Path) -> Run {
@@ -395,6 +502,7 @@ pub fn run_impl(case: &Case, dir: &std::path::Path) -> Run {
 	let mut per_step = Vec::new();
 	let mut obs = Vec::new();
 	let mut iters = Vec::new();
+	let (mut max_bits, mut coexisted) = (0u32, false);
 	let res = std::panic::catch_unwind(std::panic::AssertUnwindSafe(|| {
 		let mut db = Some(Db::open_or_create(&opts).expect("open_or_create"));
 		let trace = std::env::var("VERIF_TRACE").is_ok();
@@ -427,8 +535,15 @@ pub fn run_impl(case: &Case, dir: &std::path::Path) -> Run {
 				},
 				Step::Process => d.process_commits().map(|_| 0).unwrap_or_else(|e| 100 + err_class(&e)),
 				Step::Flush => d.flush_logs().map(|_| 0).unwrap_or_else(|e| 100 + err_class(&e)),
-				Step::EnactAll => d.enact_logs().map(|_| 0).unwrap_or_else(|e| 100 + err_class(&e)),
-				Step::EnactOne => enact_one(d),
+				Step::EnactAll => {
+					guard_dirty(d);
+					d.enact_logs().map(|_| 0).unwrap_or_else(|e| 100 + err_class(&e))
+				},
+				Step::EnactOne => {
+					guard_dirty(d);
+					enact_one(d)
+				},
+				Step::Reindex => d.process_reindex().map(|_| 0).unwrap_or_else(|e| 100 + err_class(&e)),
 				Step::Clean => d.clean_logs().map(|_| 0).unwrap_or_else(|e| 100 + err_class(&e)),
 				Step::Reopen => {
 					drop(db.take());
@@ -490,6 +605,23 @@ pub fn run_impl(case: &Case, dir: &std::path::Path) -> Run {
 					}
 				}
 			}
+			if case.class == "c09" {
+				let mut gens = 0;
+				if let Ok(rd) = std::fs::read_dir(dir) {
+					for e in rd.flatten() {
+						let n = e.file_name().to_string_lossy().to_string();
+						if let Some(b) = n.strip_prefix("index_00_") {
+							if let Ok(b) = b.parse::<u32>() {
+								gens += 1;
+								max_bits = max_bits.max(b);
+							}
+						}
+					}
+				}
+				if gens > 1 {
+					coexisted = true;
+				}
+			}
 			iters.push(its);
 			obs.extend_from_slice(&line);
 			per_step.push(line);
@@ -506,7 +638,7 @@ pub fn run_impl(case: &Case, dir: &std::path::Path) -> Run {
 		}
 	});
 	let _ = std::fs::remove_dir_all(dir);
-	Run { obs, per_step, iters, panicked }
+	Run { obs, per_step, iters, panicked, max_bits, coexisted, reindex_between_commits: false }
 }
 
 /// On preimage columns every Set of (col, key) carries the same token: find it in the history.
@@ -521,6 +653,15 @@ pub fn fixed_token(case: &Case, c: usize, k: usize) -> Option<u64> {
 		}
 	}
 	None
+}
+
+/// Without background threads nobody cleans logs and the enact step would wait for ever once more
+/// than four fully read logs are dirty. Cleaning is not observable (the model's clean step only
+/// resets a counter), so do what the cleanup worker would have done.
+fn guard_dirty(d: &Db) {
+	if d.verif_num_dirty_logs() >= 4 {
+		let _ = d.clean_logs();
+	}
 }
 
 #[cfg(parity_db_verif)]
@@ -551,7 +692,7 @@ pub fn canonicalise(case: &mut Case) {
 /// C07: on counted columns a key with positive count is readable; when nothing is queued
 /// (every accepted commit processed) readable iff count positive.
 pub fn oracle(case: &Case, run: &Run) -> Result<(), String> {
-	let check_iter = case.class == "c07" || case.class == "replay";
+	let check_iter = case.class == "c07" || case.class == "replay" || (case.class == "c09" && case.cols[0].rc);
 	if let Some(p) = &run.panicked {
 		return Err(format!("panic the implementation panicked: {}", p.chars().take(200).collect::<String>()))
 	}
@@ -741,10 +882,18 @@ pub fn main(args: &[String], kind: &str) -> i32 {
 				Step::Clean => "clean",
 				Step::Reopen => "reopen",
 				Step::EnactOne => "enact-one",
+				Step::Reindex => "reindex",
 			};
 			*dist.entry(format!("step-{name}")).or_insert(0) += 1;
 		}
-		if nontrivial(&case) {
+		if case.class == "c09" {
+			*dist.entry(format!("max-index-bits-{}", run.max_bits)).or_insert(0) += 1;
+			if run.coexisted {
+				*dist.entry("two-index-generations-coexisted".into()).or_insert(0) += 1;
+			}
+		}
+		let nt = if case.class == "c09" { run.max_bits > 16 } else { nontrivial(&case) };
+		if nt {
 			use std::hash::{Hash, Hasher};
 			let mut h = std::collections::hash_map::DefaultHasher::new();
 			toks.hash(&mut h);
@@ -800,6 +949,7 @@ pub fn parse_case(line: &str) -> Option<Case> {
 			5 => Step::Clean,
 			6 => Step::Reopen,
 			7 => Step::EnactOne,
+			8 => Step::Reindex,
 			_ => return None,
 		});
 	}
